@@ -55,9 +55,10 @@ EXEMPT_FUNCS = {
     'IFERROR', 'IFNA', 'ISBLANK', 'ISERR', 'ISERROR', 'ISLOGICAL', 'ISNA',
     'ISNONTEXT', 'ISNUMBER', 'ISTEXT', 'COUNT', 'COUNTA', 'COUNTBLANK',
     'COUNTIF', 'ROW', 'COLUMN', 'FILTER', 'SUMIF', 'AVERAGEIF', 'DUMMYFUNCTION',
-    'INDEX', 'MATCH', 'LOOKUP', 'VLOOKUP', 'HLOOKUP', 'ARRAY', 'ARRAYROW',
+    'ARRAY', 'ARRAYROW',
     'SINGLE',
 }
+LOOKUPS = ('INDEX', 'MATCH', 'LOOKUP', 'VLOOKUP', 'HLOOKUP')
 EXEMPT_POS = {('IF', 1): 'cond', ('IF', 2): 'cond', ('IFS', None): 'sel',
               ('SWITCH', None): 'sel'}
 
@@ -222,6 +223,10 @@ def benign_args(spec, n):
 
 def exempt(name, pos, args):
     b = _base(name)
+    if b in LOOKUPS:
+        # an error among the elements of a table need not surface (only the
+        # scanned / selected ones do); an error given in place of an argument must
+        return isinstance(args[pos], list)
     if b in EXEMPT_FUNCS or b.startswith('IS') and b not in ('ISEVEN', 'ISODD', 'ISOWEEKNUM', 'ISO.CEILING'):
         return True
     if b == 'IF':
